@@ -157,6 +157,10 @@ def _add_subcommands(
                 remove_actions(subparser, (ActionConfigFile, _ActionPrintConfig))
 
 
+def get_class_methods(component) -> List[str]:
+    return [k for k, v in inspect.getmembers(component) if (callable(v) or isinstance(v, property)) and k[0] != "_"]
+
+
 def has_parameter(component, name) -> bool:
     return name in inspect.signature(component).parameters.keys()
 
@@ -170,9 +174,7 @@ def _add_component_to_parser(
 ):
     kwargs: dict = dict(as_positional=as_positional, fail_untyped=fail_untyped, sub_configs=True)
     if inspect.isclass(component):
-        class_methods = [
-            k for k, v in inspect.getmembers(component) if (callable(v) or isinstance(v, property)) and k[0] != "_"
-        ]
+        class_methods = get_class_methods(component)
         if not class_methods:
             added_args = parser.add_class_arguments(component, as_group=False, **kwargs)
             if not parser.description:
@@ -201,8 +203,9 @@ def _add_component_to_parser(
 
 def _run_component(component, cfg):
     cfg.pop("config", None)
-    # only classes have a subcommands dest, in a function "subcommand" can only be one of its parameters
-    subcommand = cfg.pop("subcommand") if inspect.isclass(component) else None
+    # only classes with methods have a subcommands dest, otherwise "subcommand" can only be a parameter
+    has_subcommands = inspect.isclass(component) and bool(get_class_methods(component))
+    subcommand = cfg.pop("subcommand") if has_subcommands else None
     if subcommand:
         subcommand_cfg = cfg.pop(subcommand, {})
         method_object = getattr(component, subcommand)
